@@ -404,6 +404,7 @@ func (c *VCtx) acquire(fr *Frame, st *State, lock *Term, write bool, pos token.P
 			cur := c.heap(st, hn, hs)
 			_, vs := arrParts(hs)
 			nv := c.fresh("hv", vs)
+			c.wfValue(st, nv)
 			st.heaps[hn] = Store(cur, o.obj, nv)
 			st.heaps[hn] = c.name("h", st.heaps[hn])
 		}
@@ -421,7 +422,7 @@ func (c *VCtx) acquire(fr *Frame, st *State, lock *Term, write bool, pos token.P
 	for _, m := range h.specs {
 		sc := c.objScope(m, st, st)
 		for _, inv := range m.spec.Invs {
-			c.fact(Implies(st.pc, c.translateBool(sc, inv.E)))
+			c.factG(st.pc, c.translateBool(sc, inv.E))
 		}
 	}
 	for _, m := range h.specs {
@@ -435,7 +436,7 @@ func (c *VCtx) acquire(fr *Frame, st *State, lock *Term, write bool, pos token.P
 	// the global invariants hold for the state just observed (they talk about the guarded fields havocked above)
 	for _, g := range c.globalClauses() {
 		if !g.trans {
-			c.fact(Implies(st.pc, c.translateBool(c.globalScope(g.pkg, st, nil), g.cl.E)))
+			c.factG(st.pc, c.translateBool(c.globalScope(g.pkg, st, nil), g.cl.E))
 		}
 	}
 	for _, m := range h.specs {
@@ -791,5 +792,16 @@ func (c *VCtx) pointAsserts(fr *Frame, st *State, point string, pos token.Pos) {
 		g := c.translateBool(sc, a.E)
 		c.prove(fmt.Sprintf("assert.%s.%s", strings.ReplaceAll(point, " ", ""), clauseLabel(a, i)), fmt.Sprintf("assertion at %s (%s): %s", point, c.eng.pos(pos), a.Src), st.pc, g, nil)
 		c.fact(Implies(st.pc, g))
+	}
+}
+
+// wfValue: a value found in the (havocked) heap denotes objects that exist at this moment.
+func (c *VCtx) wfValue(st *State, v *Term) {
+	switch v.Sort {
+	case SRef:
+		c.fact(Or(Eq(v, Null), Select(c.allocHeap(st), v)))
+	case SSlice:
+		c.fact(Or(Eq(SlArr(v), Null), Select(c.allocHeap(st), SlArr(v))))
+		c.fact(c.sliceShape(v))
 	}
 }
